@@ -25,6 +25,10 @@ pub struct SCase {
     /// free-running: the threads race for real (no scheduler, the product's hook points are inert)
     #[serde(default)]
     pub free: bool,
+    /// earlier lives of the backend address: so many times a queue and a sender were created for it and
+    /// all references dropped before the ones under test are created (a proxy leaving and rejoining)
+    #[serde(default)]
+    pub reuse: u8,
 }
 
 pub fn strategy() -> impl Strategy<Value = SCase> {
@@ -33,14 +37,15 @@ pub fn strategy() -> impl Strategy<Value = SCase> {
         1u8..=2,
         0u8..4,
         prop::collection::vec(any::<u8>(), 0..160),
+        prop_oneof![3 => Just(0u8), 1 => Just(1u8), 1 => Just(2u8)],
     )
-        .prop_map(|(senders, controllers, hold_points, schedule)| SCase { senders, controllers, hold_points, schedule, free: false })
+        .prop_map(|(senders, controllers, hold_points, schedule, reuse)| SCase { senders, controllers, hold_points, schedule, free: false, reuse })
 }
 
 /// free-running races: no schedule, real threads released together
 pub fn free_strategy() -> impl Strategy<Value = SCase> {
-    (prop::collection::vec(prop::collection::vec(prop_oneof![1 => Just(0u8), 3 => Just(1u8)], 1..4), 1..=3), prop_oneof![1 => Just(1u8), 3 => Just(2u8)], 0u8..3, any::<u8>())
-        .prop_map(|(senders, controllers, hold_points, tag)| SCase { senders, controllers, hold_points, schedule: vec![tag], free: true })
+    (prop::collection::vec(prop::collection::vec(prop_oneof![1 => Just(0u8), 3 => Just(1u8)], 1..4), 1..=3), prop_oneof![1 => Just(1u8), 3 => Just(2u8)], 0u8..3, any::<u8>(), prop_oneof![3 => Just(0u8), 1 => Just(1u8)])
+        .prop_map(|(senders, controllers, hold_points, tag, reuse)| SCase { senders, controllers, hold_points, schedule: vec![tag], free: true, reuse })
 }
 
 #[derive(Debug, Clone, PartialEq)]
@@ -148,8 +153,17 @@ pub fn check(case: &SCase, obs: &mut Obs) -> Result<(), Fail> {
     let in_flight = Arc::new(Mutex::new(vec![]));
     let map = Arc::new(BlockingMap::new(InnerFactory { log: log.clone(), in_flight: in_flight.clone() }, Arc::new(RetrySender { log: log.clone() })));
     let addr = "127.0.0.1:7001".to_string();
-    let queue = map.create(addr.clone());
     let sender_factory = TaskBlockingQueueSenderFactory::new(map.clone());
+    for _ in 0..case.reuse {
+        let q = map.create(addr.clone());
+        let s = sender_factory.create(addr.clone());
+        drop(s);
+        drop(q);
+    }
+    if case.reuse > 0 {
+        obs.class("address-reused");
+    }
+    let queue = map.create(addr.clone());
     let nsend = case.senders.len();
     let nctrl = case.controllers as usize;
     let total_threads = nsend + nctrl + 1;
@@ -397,7 +411,7 @@ pub fn exhaustive_cases(len: usize) -> Vec<SCase> {
             schedule.push(((c % n) * 64 + 1) as u8);
             c /= n;
         }
-        out.push(SCase { senders: vec![vec![1], vec![1]], controllers: 1, hold_points: 1, schedule, free: false });
+        out.push(SCase { senders: vec![vec![1], vec![1]], controllers: 1, hold_points: 1, schedule, free: false, reuse: 0 });
     }
     out
 }
@@ -415,12 +429,12 @@ pub fn exhaustive_cases_two_controllers(len: usize) -> Vec<SCase> {
             schedule.push(((c % n) * 64 + 1) as u8);
             c /= n;
         }
-        out.push(SCase { senders: vec![vec![1]], controllers: 2, hold_points: 0, schedule, free: false });
+        out.push(SCase { senders: vec![vec![1]], controllers: 2, hold_points: 0, schedule, free: false, reuse: 0 });
     }
     out
 }
 
-pub const RULE: &str = "the REAL BlockingMap / TaskBlockingQueue / TaskBlockingQueueSender / BlockingHandle over two mock senders (inner = handed to the source Redis, keeps the CounterTask alive until a completer thread drops it; retry = re-dispatched), driven by real OS threads under a deterministic cooperative scheduler: 1..3 sender threads (1..3 commands each, hint computed like RedisScanMigratingTask::send, Retry recomputed up to 3 times), 1..2 controllers (start_blocking, poll blocking_done, BARRIER-UP, hold, BARRIER-DOWN, drop the handle) and a completer; control changes hands only at the scheduling points compiled into undermoon by hook H3 (before every shared-memory access of proxy/blocking.rs and between the load and the compare-exchange of common/biatomic.rs) and at harness points; the schedule is a generated byte vector (then round robin); [exhaustive] every schedule prefix of length 9 over 4 participants for 2 senders x 1 command and 1 controller [exhaustive] and for 1 sender and 2 controllers [exhaustive-2ctrl]; oracle over the logically time-stamped event log: no command handed to Redis while a barrier is up, every command ends in exactly one of {handed to Redis once, re-dispatched once, given up}, at quiescence not blocking and no running command; non-trivial = a controller step executed while a sender was between its counter increment/state read/enqueue/re-check; distinct = hash of the case";
+pub const RULE: &str = "the REAL BlockingMap / TaskBlockingQueue / TaskBlockingQueueSender / BlockingHandle over two mock senders (inner = handed to the source Redis, keeps the CounterTask alive until a completer thread drops it; retry = re-dispatched), driven by real OS threads under a deterministic cooperative scheduler: the backend address may have had 1..2 earlier lives (queue and sender created and dropped); 1..3 sender threads (1..3 commands each, hint computed like RedisScanMigratingTask::send, Retry recomputed up to 3 times), 1..2 controllers (start_blocking, poll blocking_done, BARRIER-UP, hold, BARRIER-DOWN, drop the handle) and a completer; control changes hands only at the scheduling points compiled into undermoon by hook H3 (before every shared-memory access of proxy/blocking.rs and between the load and the compare-exchange of common/biatomic.rs) and at harness points; the schedule is a generated byte vector (then round robin); [exhaustive] every schedule prefix of length 9 over 4 participants for 2 senders x 1 command and 1 controller [exhaustive] and for 1 sender and 2 controllers [exhaustive-2ctrl]; oracle over the logically time-stamped event log: no command handed to Redis while a barrier is up, every command ends in exactly one of {handed to Redis once, re-dispatched once, given up}, at quiescence not blocking and no running command; non-trivial = a controller step executed while a sender was between its counter increment/state read/enqueue/re-check; distinct = hash of the case";
 
 pub const RULE_FREE: &str = "[free-running] the same participants and the same event-log oracle WITHOUT the scheduler: 1..3 senders, 1..2 controllers and the completer are real threads released together by a barrier and race freely (the product's hook points are inert), so interleavings inside code that carries no hook point (e.g. a rewritten compare-and-swap loop) are reachable too; sound (a logged event order is a real execution order) but not reproducible: a violation is reported with the observed event log; non-trivial = at least two controllers or two senders; distinct = hash of the case";
 
